@@ -5,6 +5,7 @@ resource exhaustion are outside the inventory and are only exercised by the host
 fuzzing of the full application, see DESIGN.md).
 -/
 import PalomaModel.Gen.Panics
+import PalomaModel.Gen.Atomicity
 
 namespace Paloma.NoPanic
 
@@ -190,6 +191,33 @@ message hides every later one (here: the second message is never handled). -/
 theorem old_loop_starved_the_rest :
     runLoopOld (fun (s : List Nat) (m : Nat) => if m = 0 then none else some (m :: s)) [] [0, 7] = [] ∧
     runLoop (fun (s : List Nat) (m : Nat) => if m = 0 then none else some (m :: s)) [] [0, 7] = [7] := by decide
+
+/-- The estimate loop with ONE cached context per queue instead of one per message (what hoisting `CacheContext()` out
+of the message loop gives): `part s m` is what a failing handler had already written when it gave up; those writes stay
+in the shared cache and the next successful message's `commit()` persists them. -/
+def runLoopShared {σ μ : Type} (h : σ → μ → Option σ) (part : σ → μ → σ) (s : σ) (ms : List μ) : σ :=
+  -- (committed state, cache content)
+  (ms.foldl (fun (acc : σ × σ) m =>
+      match h acc.2 m with
+      | some s' => (s', s')                 -- success: commit flushes the whole cache
+      | none => (acc.1, part acc.2 m)) (s, s)).1
+
+/-- **shared_cache_leaks_partial_writes.** With a shared cache a failing message is NOT skipped "with the rest of the
+block unaffected": its partial write (here: the elected estimate `100 + m` recorded before the fee computation fails)
+is persisted by the next message that succeeds; with a cache per message it is not. -/
+theorem shared_cache_leaks_partial_writes :
+    runLoopShared (fun (s : List Nat) (m : Nat) => if m = 0 then none else some (m :: s)) (fun s m => (100 + m) :: s) [] [0, 7]
+      = [7, 100] ∧
+    runLoop (fun (s : List Nat) (m : Nat) => if m = 0 then none else some (m :: s)) [] [0, 7] = [7] := by decide
+
+/-- **estimate_loop_isolates_each_message.** (decide over the regenerated facts) in the current source the estimate loop
+opens its cached context inside the loop over the queue's messages, commits inside that same loop, only after the
+`if err != nil { …; continue }` guard, and hands the outer context to nobody once the cached one exists — the shape
+`loopStep` models (a failing message leaves the store it found). -/
+theorem estimate_loop_isolates_each_message :
+    (Paloma.Gen.Atomicity.cachedFunctions.any fun c =>
+      c.fn == "x/consensus/keeper.Keeper.CheckAndProcessEstimatedMessages" && c.cacheLoop == "msgs" && c.commitLoop == "msgs" &&
+      c.commitAfterErrorGuard && c.outerContextUses.isEmpty && !c.deferredCommit) = true := by decide
 
 /-- **block_loops_have_no_error_exit.** (decide over the regenerated facts) both per-message loops of
 the consensus end-blocker exist, are nested loops, and contain no statement that leaves the function
